@@ -1,13 +1,27 @@
 // C17: action trees (tbox::flow) on a real event loop under a virtual monotonic clock (engine H).
 //
-//   harness run <part> <nparts> <hist-depth> <max-weight> <max-composites> <max-depth> [<min-depth>]
-//   harness replay <hist-depth> <max-weight> <max-composites> <max-depth> <program-index> "<history e.g. start pass pause>" [<min-depth>]
-//   harness list <max-weight> <max-composites> <max-depth> [<min-depth>]           (print the canonical program order)
+//   harness run <part> <nparts> <hist-depth> <max-weight> <max-composites> <max-depth> [<min-depth> [<lane>]]
+//   harness replay <hist-depth> <max-weight> <max-composites> <max-depth> <program-index> "<history e.g. start pass pause>" [<min-depth> [<lane>]]
+//   harness list <max-weight> <max-composites> <max-depth> [<min-depth> [<lane>]]           (print the canonical program order)
 //
 // PROGRAM = tree of real composites (Sequence x3 modes, Parallel x3, IfElse, IfThen, Switch, Loop x3, LoopIf,
-// Repeat times{1,2} x3, Wrapper x4, Composite) over <=4 harness leaves (ProbeLeaf), optional timeout on the root.
+// Repeat times{1,2} x3, Wrapper x4, Composite) over <=4 leaves, optional timeout on the root.
 // Programs are enumerated canonically by WEIGHT (small and plain first, see weight rules at `struct Family`).
 // For every program: BFS (hx::Explorer) over control histories {start,pause,resume,stop,reset,pass,advance-timeout}.
+// Every library class is instantiated through Tap<T> (life-cycle hooks announce run boundaries of inner nodes to the observer); the constructor / setter /
+// role-alias variant used to build each composite is picked from the program index (`alt`, printed as v<alt>).
+//
+// LANES (program family + op menu; lane A is the main one)
+//   A  all composite kinds and modes, harness leaves (ProbeLeaf: succeed/fail/block/never/flip x delay)
+//   X  same shapes, leaves S0/F1/B1 plus at least one of: SleepAction(50 ms; both constructors), FunctionAction (true/false; all four callable overloads),
+//      "late" probe leaves LS1/LF1 whose completion arrives although the leaf was paused or stopped meanwhile (finish() after stop must be refused)
+//   N  two nested composites (one representative mode per kind, arity <= 2), leaves S0/F1 + one of B1 / flip / a timeout on the INNER composite
+//   T  one composite level (8 representative shapes), leaves S1 + up to two of N/F1/B1/SleepAction, with and without an initial root timeout, extra ops
+//      set-timeout (setTimeout on a running/paused root, also repeatedly) and reset-timeout (resetTimeout)
+//   R  lane A's shapes and leaves; the root's finish callback re-uses the tree once from inside the notification: reset(); start();
+// `advance-timeout` moves the virtual clock to the instant of the earliest armed timer of the loop (action timeouts and SleepAction timers).
+// After every history that reaches a new canonical state with something queued or armed, a terminal `destroy` is tried as well: delete the tree
+// as it is and run the loop (ASan + "no notification after destroy").
 //
 // A `pass` is the body of ONE iteration of the real CommonLoop (handleExpiredTimers(); handleNextFunc();), i.e. what
 // runLoop(kForever) does per wake-up. runLoop(kOnce) is deliberately not used for a single pass: its epilogue
@@ -21,8 +35,13 @@
 //      - root finish callback at most once per run, exactly once when the root is finished, agrees with result()
 //      - no leaf is started again while a previous run of it is under way
 //      - a node that is finished or stopped has no descendant that isUnderway() (also for inner nodes)
-//      - no finish/block notification of a run that was stopped or reset is delivered (root and leaves: epoch tag
-//        captured by the installed callback; inner composites: state of the node at delivery time)
+//      - no finish/block notification of a run that was stopped or reset is delivered (every node: epoch tag captured by the
+//        installed callback; epochs advance in the node's own onStop/onReset hook, for the root also at the op itself)
+//      - a leaf's finish() is refused without any effect once the leaf is stopped/finished, accepted while it is under way (late leaves)
+//      - a composite finishes from a timer callback only if a timeout is configured on it and the full span has passed since its run
+//        started / the timeout was set (never after resetTimeout)
+//      - library leaves: FunctionAction finishes with its function's return value, SleepAction with success; a SleepAction under way has its timer armed
+//      - destroy at any moment: no notification afterwards, no timer left armed, no task touching the freed tree (ASan)
 //      - final hook exactly once per run that ended by finish or stop
 //      - after reset every node is idle/unsure, and the continuation (rest of the history + drain) is trace-equal
 //        to the same continuation on a freshly built tree
@@ -181,9 +200,9 @@ static int shape_weight(const SInfo &x) { return weight_of(x.comps, x.depth, x.l
 struct Alt { Script s; int w; };
 static std::vector<Alt> alphabet(const Node &n) {
   std::vector<Alt> a; auto add = [&](int out, int delay, int w) { bool succ = (out != oF && out != oN && out != oFM && out != oLF && out != oSL /* SleepAction's reason text is fixed */); int nm = (n.under_switch && succ) ? (n.has_b ? 3 : 2) : 1; for (int m = 0; m < nm; m++) a.push_back(Alt{Script{(uint8_t)out, (uint8_t)delay, (uint8_t)m}, w}); };
-  if (g_lane == 'X') { add(oS, 0, 0); add(oF, 1, 0); add(oSL, 0, 1); add(oFP, 0, 1); add(oFM, 0, 1); add(oLS, 1, 1); add(oLF, 1, 1); return a; }
+  if (g_lane == 'X') { add(oS, 0, 0); add(oF, 1, 0); add(oSL, 0, 1); add(oFP, 0, 1); add(oFM, 0, 1); add(oLS, 1, 1); add(oLF, 1, 1); add(oB, 1, 1); return a; }
   if (g_lane == 'N') { add(oS, 0, 0); add(oF, 1, 0); add(oB, 1, 1); if (n.under_loop) add(oFS, 0, 1); return a; }
-  if (g_lane == 'T') { add(oS, 1, 0); add(oN, 0, 1); add(oF, 1, 1); add(oSL, 0, 1); return a; }
+  if (g_lane == 'T') { add(oS, 1, 0); add(oN, 0, 1); add(oF, 1, 1); add(oSL, 0, 1); add(oB, 1, 1); return a; }
   add(oS, 0, 0); add(oS, 1, 0); add(oF, 0, 0); add(oF, 1, 0); add(oN, 0, 1); add(oB, 1, 1);
   if (n.under_loop) { add(oSF, 0, 1); add(oSF, 1, 1); add(oFS, 0, 1); add(oFS, 1, 1); }
   add(oB, 0, 2); add(oS, 2, 2); add(oF, 2, 2); add(oB, 2, 3);
@@ -202,7 +221,7 @@ struct Family {
   static int to_weight() { return g_lane == 'T' ? 0 : 1; }     // lane T: with and without an initial timeout at no weight
   static void set_text(Program &p) { p.text = prog_text(p, 0) + (p.timeout == 1 ? " timeout=100ms" : p.timeout == 2 ? " inner-timeout=100ms" : "") + " v" + std::to_string(p.alt); }
   static bool wanted(const Program &p) {   // lane X repeats no program of lane A: at least one library / late leaf
-    if (g_lane != 'X') return true; for (auto &sc : p.sc) if (sc.out >= oSL) return true; return false; }
+    if (g_lane != 'X') return true; for (auto &sc : p.sc) if (sc.out >= oSL) return true; return false; }   // (B1 only next to one of them)
   long total() {    // number of programs of the family (same loops as each(), counted by convolution of the leaf alphabets' weight histograms)
     long n = 0; if (g_lane == 'X') { each([&](Program &) { n++; return true; }); return n; }
     for (size_t si = 0; si < protos.size(); si++) { std::vector<long> h(maxw + 1, 0); h[0] = 1;
@@ -286,6 +305,7 @@ struct World {
   std::vector<int> ep, finals, fdeliv; std::vector<char> epwhy, by_timeout; std::vector<Mon> mon;
   std::vector<char> live, to_conf; std::vector<long long> t_arm;   // model: run of node i under way | a timeout is configured on node i | instant of the node's last start / set-timeout
   bool destroyed = false;
+  bool restart_armed = (g_lane == 'R');   // lane R: the user's finish callback re-uses the tree: reset(); start(); (once) - a control call made from inside a notification
   std::string trace, viol; bool quiet_trace = false;
   std::string end_status;
 
@@ -301,6 +321,7 @@ struct World {
   static bool underway(St s) { return s == St::kRunning || s == St::kPause; }
 
   template <class T> T *tap(T *a, int i) { a->w = this; a->ni = i; return a; }
+  bool built_ok = true; void need(bool ok) { if (!ok) built_ok = false; }
   Action *mk(int i) {
     const Node &n = P.n[i]; Action *a = nullptr; unsigned alt = P.alt; event::Loop &L = *g_loop;
     switch (n.k) {
@@ -313,18 +334,18 @@ struct World {
           else a = tap(new LeafTap<FunctionAction>(L, FunctionAction::FuncWithReasonVars([ok, msg](Action::Reason &r, util::Variables &) { r.message = msg; return ok; })), i); }
         else { auto *l = new ProbeLeaf(L, this, i, sc); leaf[i] = l; a = l; } } break;
       case SEQ: { Tap<SequenceAction> *s; if (alt & 1) { s = tap(new Tap<SequenceAction>(L), i); s->setMode((SequenceAction::Mode)n.mode); } else s = tap(new Tap<SequenceAction>(L, (SequenceAction::Mode)n.mode), i);
-        a = s; for (int c : n.ch) s->addChild(mk(c)); } break;
-      case PAR: { auto *s = tap(new Tap<ParallelAction>(L, (ParallelAction::Mode)n.mode), i); a = s; for (int c : n.ch) s->addChild(mk(c)); } break;
-      case IFELSE: { auto *s = tap(new Tap<IfElseAction>(L), i); a = s; for (size_t c = 0; c < n.ch.size(); c++) { std::string ro = role_of(n.k, n.var, (int)c); if (alt & 1) { if (ro == "then") ro = "succ"; else if (ro == "else") ro = "fail"; } s->setChildAs(mk(n.ch[c]), ro); } } break;
-      case IFTHEN: { auto *s = tap(new Tap<IfThenAction>(L), i); a = s; for (size_t c = 0; c < n.ch.size(); c++) s->addChildAs(mk(n.ch[c]), role_of(n.k, n.var, (int)c)); } break;
-      case SWITCH: { auto *s = tap(new Tap<SwitchAction>(L), i); a = s; for (size_t c = 0; c < n.ch.size(); c++) s->setChildAs(mk(n.ch[c]), role_of(n.k, n.var, (int)c)); } break;
-      case LOOP: { if (alt & 1) a = tap(new Tap<LoopAction>(L, mk(n.ch[0]), (LoopAction::Mode)n.mode), i); else { auto *s = tap(new Tap<LoopAction>(L, (LoopAction::Mode)n.mode), i); a = s; s->setChild(mk(n.ch[0])); } } break;
-      case LOOPIF: { auto *s = tap(new Tap<LoopIfAction>(L), i); a = s; s->setChildAs(mk(n.ch[0]), "if"); s->setChildAs(mk(n.ch[1]), "exec"); if (alt % 3 == 1) s->setFinishResult(false); else if (alt % 3 == 2) s->setFinishResult(true); } break;
+        a = s; for (int c : n.ch) need(s->addChild(mk(c)) >= 0); } break;
+      case PAR: { auto *s = tap(new Tap<ParallelAction>(L, (ParallelAction::Mode)n.mode), i); a = s; for (int c : n.ch) need(s->addChild(mk(c)) >= 0); } break;
+      case IFELSE: { auto *s = tap(new Tap<IfElseAction>(L), i); a = s; for (size_t c = 0; c < n.ch.size(); c++) { std::string ro = role_of(n.k, n.var, (int)c); if (alt & 1) { if (ro == "then") ro = "succ"; else if (ro == "else") ro = "fail"; } need(s->setChildAs(mk(n.ch[c]), ro)); } } break;
+      case IFTHEN: { auto *s = tap(new Tap<IfThenAction>(L), i); a = s; for (size_t c = 0; c < n.ch.size(); c++) need(s->addChildAs(mk(n.ch[c]), role_of(n.k, n.var, (int)c)) >= 0); } break;
+      case SWITCH: { auto *s = tap(new Tap<SwitchAction>(L), i); a = s; for (size_t c = 0; c < n.ch.size(); c++) need(s->setChildAs(mk(n.ch[c]), role_of(n.k, n.var, (int)c))); } break;
+      case LOOP: { if (alt & 1) a = tap(new Tap<LoopAction>(L, mk(n.ch[0]), (LoopAction::Mode)n.mode), i); else { auto *s = tap(new Tap<LoopAction>(L, (LoopAction::Mode)n.mode), i); a = s; need(s->setChild(mk(n.ch[0]))); } } break;
+      case LOOPIF: { auto *s = tap(new Tap<LoopIfAction>(L), i); a = s; need(s->setChildAs(mk(n.ch[0]), "if")); need(s->setChildAs(mk(n.ch[1]), "exec")); if (alt % 3 == 1) s->setFinishResult(false); else if (alt % 3 == 2) s->setFinishResult(true); } break;
       case REPEAT: { if (alt % 3 == 1) a = tap(new Tap<RepeatAction>(L, mk(n.ch[0]), (size_t)n.var, (RepeatAction::Mode)n.mode), i);
-        else if (alt % 3 == 2) { auto *s = tap(new Tap<RepeatAction>(L), i); a = s; s->setTimes((size_t)n.var); s->setMode((RepeatAction::Mode)n.mode); s->setChild(mk(n.ch[0])); }
-        else { auto *s = tap(new Tap<RepeatAction>(L, (size_t)n.var, (RepeatAction::Mode)n.mode), i); a = s; s->setChild(mk(n.ch[0])); } } break;
-      case WRAP: { if (alt & 1) a = tap(new Tap<WrapperAction>(L, mk(n.ch[0]), (WrapperAction::Mode)n.mode), i); else { auto *s = tap(new Tap<WrapperAction>(L, (WrapperAction::Mode)n.mode), i); a = s; s->setChild(mk(n.ch[0])); } } break;
-      case COMP: { auto *s = tap(new Tap<CompositeAction>(L, "Composite"), i); a = s; s->setChild(mk(n.ch[0])); } break;
+        else if (alt % 3 == 2) { auto *s = tap(new Tap<RepeatAction>(L), i); a = s; s->setTimes((size_t)n.var); s->setMode((RepeatAction::Mode)n.mode); need(s->setChild(mk(n.ch[0]))); }
+        else { auto *s = tap(new Tap<RepeatAction>(L, (size_t)n.var, (RepeatAction::Mode)n.mode), i); a = s; need(s->setChild(mk(n.ch[0]))); } } break;
+      case WRAP: { if (alt & 1) a = tap(new Tap<WrapperAction>(L, mk(n.ch[0]), (WrapperAction::Mode)n.mode), i); else { auto *s = tap(new Tap<WrapperAction>(L, (WrapperAction::Mode)n.mode), i); a = s; need(s->setChild(mk(n.ch[0]))); } } break;
+      case COMP: { auto *s = tap(new Tap<CompositeAction>(L, "Composite"), i); a = s; need(s->setChild(mk(n.ch[0]))); } break;
     }
     act[i] = a; return a;
   }
@@ -345,7 +366,8 @@ struct World {
       if (P.n[i].k != LEAF) static_cast<AssembleAction *>(act[i])->setFinalCallback([this, i] { finalHook(i); }); }
     if (P.to_node > 0) { act[P.to_node]->setTimeout(std::chrono::milliseconds(T_MS)); to_conf[P.to_node] = 1; }
     if (root_timeout < 0 ? P.to_node == 0 : root_timeout == 1) { root->setTimeout(std::chrono::milliseconds(T_MS)); to_conf[0] = 1; }
-    if (!root->isReady()) V("harness-tree-not-ready", "");
+    if (!built_ok) V("composite-refuses-a-documented-child-or-role", "");
+    else if (!root->isReady()) V("harness-tree-not-ready", "");
   }
   static void scrub() { g_cl->run_next_func_queue_.clear(); g_cl->tmp_func_queue_.clear(); g_cl->timer_min_heap_.clear(); }
   void destroy() { destroyed = true; delete root; root = nullptr; scrub(); }
@@ -400,14 +422,18 @@ struct World {
   }
   void hookStop(int i) { live[i] = 0; bump(i, 's'); }
   void hookReset(int i) { live[i] = 0; bump(i, 'r'); }
-  void hookFinished(int i, bool ok) { live[i] = 0; if (P.n[i].k == LEAF) tr(ok ? "f%d+" : "f%d-", i); }
+  void hookFinished(int i, bool ok) { live[i] = 0; if (P.n[i].k != LEAF) return; tr(ok ? "f%d+" : "f%d-", i);
+    int o = P.sc[P.n[i].leafno].out;    // library leaves: FunctionAction finishes with what its function returned, SleepAction with success (headers + FunctionAction/SleepAction tests)
+    if ((o == oFP || o == oFM) && ok != (o == oFP)) V("function-leaf-result-differs-from-what-the-function-returned", "leaf " + std::to_string(i) + " function returned " + (o == oFP ? "true" : "false"));
+    if (o == oSL && !ok) V("sleep-leaf-finished-with-failure", "leaf " + std::to_string(i)); }
   void finishDelivered(int i, int tag, bool ok, const Action::Reason &r, const Action::Trace &t) {
     if (destroyed) { V("notification-delivered-after-destroy", "finish notification of node " + std::to_string(i) + " runs after the tree was destroyed"); return; }
     tr(ok ? "F%d+" : "F%d-", i);
     std::string where = i == 0 ? "" : "-inner";
     if (tag != ep[i]) V(std::string("stale-finish-notification-after-") + (epwhy[i] == 's' ? "stop" : "reset") + where, "node " + std::to_string(i) + " delivered the finish notification of an earlier run");
     if (++fdeliv[i] > 1) V(i == 0 ? "root-finish-callback-more-than-once-per-run" : "finish-notification-delivered-twice-per-run", "node " + std::to_string(i));
-    if (i == 0) { if (root->state() == St::kFinished && ok != (root->result() == Action::Result::kSuccess)) V("root-finish-callback-disagrees-with-result", ""); }
+    if (i == 0) { if (root->state() == St::kFinished && ok != (root->result() == Action::Result::kSuccess)) V("root-finish-callback-disagrees-with-result", "");
+      if (restart_armed && viol.empty() && tag == ep[0]) { restart_armed = false; tr("RESTART"); resetRoot(); if (viol.empty()) root->start(); } }
     else { int p = P.n[i].parent; St ps = act[p]->state(); if (underway(ps) && viol.empty()) monChildFinish(p, P.n[i].pos, ok, r.message, ps == St::kPause); if (of[i]) of[i](ok, r, t); }
     scan();
   }
@@ -466,6 +492,11 @@ struct World {
     g_cl->handleNextFunc();
     scan();
   }
+  void resetRoot() {
+    if (root->state() != St::kIdle) bump(0, 'r'); root->reset();
+    for (auto &it : g_cl->run_next_func_queue_) if (it.what.empty()) stale_ids.insert(it.id);
+    for (int i = 0; i < N && viol.empty(); i++) if (act[i]->state() != St::kIdle || act[i]->result() != Action::Result::kUnsure) V("reset-leaves-node-not-idle", "node " + std::to_string(i) + " " + sname(act[i]->state()));
+  }
   enum { O_START, O_PAUSE, O_RESUME, O_STOP, O_RESET, O_PASS, O_ADV, O_SETTO, O_RSTTO };
   void op(int o) {
     static const char *n[] = {"start", "pause", "resume", "stop", "reset", "pass", "advance", "set-timeout", "reset-timeout"};
@@ -475,10 +506,7 @@ struct World {
       case O_PAUSE: root->pause(); break;
       case O_RESUME: root->resume(); break;
       case O_STOP: if (root->isUnderway()) bump(0, 's'); root->stop(); break;
-      case O_RESET: if (root->state() != St::kIdle) bump(0, 'r'); root->reset();
-        for (auto &it : g_cl->run_next_func_queue_) if (it.what.empty()) stale_ids.insert(it.id);
-        for (int i = 0; i < N && viol.empty(); i++) if (act[i]->state() != St::kIdle || act[i]->result() != Action::Result::kUnsure) V("reset-leaves-node-not-idle", "node " + std::to_string(i) + " " + sname(act[i]->state()));
-        break;
+      case O_RESET: resetRoot(); break;
       case O_PASS: pass(); break;
       case O_ADV: { long long m = heapMin(); if (m > vnow) vnow = m; } break;    // to the instant of the earliest armed timer (root/inner timeout, SleepAction)
       case O_SETTO: root->setTimeout(std::chrono::milliseconds(T_MS)); to_conf[0] = 1; t_arm[0] = vnow; break;
@@ -542,7 +570,9 @@ struct World {
   std::string canon_impl() {
     std::string c; char b[96];
     for (int i = 0; i < N; i++) { const Node &n = P.n[i]; Action *a = act[i]; c += sc(a->state()); c += "usf"[(int)a->result()];
-      if (n.k == LEAF && !leaf[i]) { if (isSleep(i)) { auto *sl = static_cast<SleepAction *>(a); long long e = expiry(sl->timer_); snprintf(b, sizeof b, "t%lld", e < 0 ? e : e - vnow); c += b; if (a->state() == St::kPause) { snprintf(b, sizeof b, "r%lld", (long long)sl->remain_time_span_.count()); c += b; } } }
+      if (n.k == LEAF && !leaf[i]) { if (isSleep(i)) { auto *sl = static_cast<SleepAction *>(a); long long e = expiry(sl->timer_); snprintf(b, sizeof b, "t%lld", e < 0 ? e : e - vnow); c += b;
+          if (a->isUnderway()) { long long ft = std::chrono::duration_cast<std::chrono::milliseconds>(sl->finish_time_.time_since_epoch()).count() - vnow; snprintf(b, sizeof b, "f%lld", std::max(-999LL, std::min(999LL, ft))); c += b; }
+          if (a->state() == St::kPause) { snprintf(b, sizeof b, "r%lld", (long long)sl->remain_time_span_.count()); c += b; } } }
       else if (n.k == LEAF) { ProbeLeaf *l = leaf[i]; bool flip = l->sc.out == oSF || l->sc.out == oFS; snprintf(b, sizeof b, "%d%d%d%d%d", l->remaining, l->what, (int)l->blocked, (int)l->active, flip ? std::min(l->runs, 1) : 0); c += b; }
       else if (n.k == PAR) { for (auto &kv : static_cast<ParallelAction *>(a)->finished_children_) { snprintf(b, sizeof b, "%d%c", kv.first, kv.second ? '+' : '-'); c += b; } }
       else { auto *s = static_cast<SerialAssembleAction *>(a); int cur = -1; for (size_t k = 0; k < n.ch.size(); k++) if (act[n.ch[k]] == s->curr_action_) cur = (int)k; if (s->curr_action_ && cur < 0) cur = 9;
@@ -556,7 +586,7 @@ struct World {
   std::string canon() {
     std::string c = canon_impl(); char b[96]; c += "#";
     for (int i = 0; i < N; i++) { Mon &m = mon[i]; snprintf(b, sizeof b, "%d%d%d%d%d%d%d%d%d%d%d%d%d%d%d;", m.exp, m.ec + 1, m.er, m.cur + 1, m.remain, m.k, m.rec[0], m.rec[1], m.rec[2], m.rec[3], (int)m.dwp, (int)m.done, std::min(finals[i], 2), std::min(fdeliv[i], 2), (int)by_timeout[i]); c += b;
-      c += live[i] ? 'L' : '.'; if (to_conf[i]) c += (vnow - t_arm[i] >= T_MS) ? "C+" : "C-"; }
+      if (i == 0 && restart_armed) c += 'R'; c += live[i] ? 'L' : '.'; if (to_conf[i]) c += (vnow - t_arm[i] >= T_MS) ? "C+" : "C-"; }
     return c;
   }
 };
@@ -606,8 +636,8 @@ static void report(const Program &P, const std::vector<Op> &h, const std::string
 // evaluate one history on a fresh tree; returns the canonical state after the history (before the drain)
 static std::string evaluate(const Program &P, const std::vector<Op> &h, std::string &viol, HInfo *info, std::string *full_trace = nullptr) {
   World A(P); A.build();
-  int mark = -1, conf_at_mark = 0; size_t markpos = 0; std::vector<int> runs_at_mark;
-  for (size_t k = 0; k < h.size() && A.viol.empty(); k++) { A.op(h[k].k); if (h[k].k == World::O_RESET) { mark = (int)k; markpos = A.trace.size(); conf_at_mark = A.to_conf[0]; runs_at_mark.clear(); for (int i = 0; i < A.N; i++) runs_at_mark.push_back(A.leaf[i] ? A.leaf[i]->runs : 0); } }
+  int mark = -1, conf_at_mark = 0; bool restart_at_mark = false; size_t markpos = 0; std::vector<int> runs_at_mark;
+  for (size_t k = 0; k < h.size() && A.viol.empty(); k++) { A.op(h[k].k); if (h[k].k == World::O_RESET) { mark = (int)k; markpos = A.trace.size(); conf_at_mark = A.to_conf[0]; restart_at_mark = A.restart_armed; runs_at_mark.clear(); for (int i = 0; i < A.N; i++) runs_at_mark.push_back(A.leaf[i] ? A.leaf[i]->runs : 0); } }
   std::string canon = A.viol.empty() ? A.canon() : std::string("viol");
   if (info) { info->state = (uint8_t)A.root->state(); info->quiescent = A.quiescent(); info->queue_empty = A.queueEmpty(); info->timer_armed = A.timerArmed(); info->to_conf = (uint8_t)A.to_conf[0];
     info->pending = !A.queueEmpty() || World::heapMin() >= 0; }
@@ -616,7 +646,7 @@ static std::string evaluate(const Program &P, const std::vector<Op> &h, std::str
   std::string atrace = A.trace, aviol = A.viol, status = A.end_status; bool stale_replay = A.stale_replay_ran; A.destroy();
   if (aviol.empty() && mark >= 0) {   // differential oracle: continuation after the last reset == same continuation on a freshly built tree
     T_diff++;
-    World B(P); B.build(conf_at_mark); for (int i = 0; i < B.N; i++) if (B.leaf[i]) B.leaf[i]->runs = runs_at_mark[i];   // same environment: a leaf's outcome depends on how often it ran before
+    World B(P); B.build(conf_at_mark); B.restart_armed = restart_at_mark; for (int i = 0; i < B.N; i++) if (B.leaf[i]) B.leaf[i]->runs = runs_at_mark[i];   // same environment: a leaf's outcome depends on how often it ran before
     for (size_t k = (size_t)mark + 1; k < h.size() && B.viol.empty(); k++) B.op(h[k].k);
     if (B.viol.empty()) B.probes();
     if (B.viol.empty()) B.epilogue();
